@@ -15,7 +15,7 @@ def witness : List SLabel :=
    .signal,                                        -- SIGTERM
    .inputStep, .inputStep,                         -- the goroutine finishes its post and is back at the select
    .inputKill,                                     -- … which picks the signal arm
-   .inputStep, .inputStep, .inputStep, .inputStep, .inputStep, .inputStep,   -- Close on this goroutine, up to WaitClose
+   .inputStep, .inputStep, .inputStep, .inputStep, .inputStep,   -- Close on this goroutine: flag, quit event, suspended, signal, DA1; now WaitClose
    .termReply, .parser]                            -- the parser (at its select) takes the close signal
 
 theorem reaches_stuck_state :
